@@ -325,7 +325,7 @@ SCHEMAS = [
     Struct("TagOptMap", [F(0, "u8", opt=True, tag=9), F(1, "bool")], enc="map", note="tag on an optional field, map"),
     Struct("Newtype", [F(0, "u16")], transparent=True, tuple_=True, note="transparent newtype"),
     Struct("SkipN", [F(0, "u8"), F(0, "u16", skip=True, name="cache"), F(1, "bool")], note="skipped named field"),
-    Struct("SkipT", [F(0, "u8"), F(0, "u8", skip=True), F(1, "bool", opt=True)], tuple_=True, note="skipped tuple position"),
+    Struct("SkipT", [F(0, "u8", skip=True), F(0, "u8"), F(1, "u8")], tuple_=True, note="skipped FIRST tuple position, same-typed neighbours (a generator that mis-places the default still compiles)"),
     Struct("Bytes2", [F(0, "u8", bytes_=True), F(1, "u8", bytes_=True, opt=True)], note='with = "minicbor::bytes" on [u8;2] and Option<[u8;2]>'),
     Struct("Unit0", [], note="no fields"),
     Struct("Inner", [F(0, "u8"), F(1, "bool", opt=True)], note="nested (inner)"),
